@@ -451,16 +451,16 @@ func main() {
 	s := &state{r: r, tools: tools, famPrograms: map[string]int64{}, famCompared: map[string]int64{}, constructs: map[string]int64{},
 		statuses: map[string]int64{}, crashKinds: map[string]int64{}, cfgCompared: map[string]int64{}, sampleFam: map[string]int{}, compileSec: map[string]float64{}, gccKinds: map[string]bool{}}
 	cfg := cdrive.WalkConfig{Tier: r.Tier, BatchSize: 96,
-		Families: []string{"argcheck", "extras", "seeds", "loops", "iterate", "calls", "pure", "arith", "io", "coro", "index", "refine", "facts"},
-		Extra:    map[string]progen.Family{"extras": extras(), "argcheck": argcheck()},
+		Families: []string{"argcheck", "ioflow", "extras", "seeds", "loops", "iterate", "calls", "pure", "arith", "io", "coro", "index", "refine", "facts"},
+		Extra:    map[string]progen.Family{"extras": extras(), "argcheck": argcheck(), "ioflow": ioflow()},
 		MaxLevel: map[string]int{},
 	}
 	// Programs whose iterate body assigns to the iterate variable itself are
 	// left out (and counted): what that means is not documented, the reference
 	// interpreter rebinds the window every iteration while the generated C sets
 	// .len once per round, and most of them make the generated C spin for ever
-	// (each would cost a watchdog period). One terminating representative is in
-	// the extras family.
+	// (each would cost a watchdog period). Since 41b8085 the checker rejects such
+	// an assignment, so the filter only matters for older trees.
 	var iterateReassigned atomic.Int64
 	cfg.Keep = func(family string, p *interp.Prog) bool {
 		if family != "extras" && iterateVarReassigned(p.Src) {
@@ -490,7 +490,7 @@ func main() {
 		// the quick grammars, the thorough grammars of the families that are about
 		// cgen's lowering (loops, calls, arith), then - as far as the budget goes -
 		// the thorough io / coro grammars (coroutines are C05's main course).
-		cfg.Families = []string{"argcheck", "extras", "seeds", "loops", "iterate", "calls", "pure", "arith@quick", "io@quick", "coro@quick", "index@quick", "refine@quick", "facts@quick",
+		cfg.Families = []string{"argcheck", "ioflow", "extras", "seeds", "loops", "iterate", "calls", "pure", "arith@quick", "io@quick", "coro@quick", "index@quick", "refine@quick", "facts@quick",
 			"arith", "io", "coro", "index"}
 		cfg.MaxLevel["facts@quick"], cfg.MaxLevel["refine@quick"] = 2, 3
 	} else {
@@ -530,7 +530,7 @@ func main() {
 	for _, p := range ws.Problems {
 		s.problem("%s", p)
 	}
-	for _, own := range []string{"extras", "argcheck"} {
+	for _, own := range []string{"extras", "argcheck", "ioflow"} {
 		if fc := ws.Families[own]; fc != nil && (fc.Rejected > 0 || fc.Unsupported > 0) {
 			s.problem("%d hand-written programs of the %s family are rejected by the checker (%d outside the interpreter's subset)", fc.Rejected, own, fc.Unsupported)
 		}
